@@ -478,3 +478,410 @@ _UNITS = [
 for _n, _q, _b in _UNITS:
     register(Unit('definitions.' + _n, D, _q, _unit(_b), assumptions=ASSUME,
                   linkage=[('concepts.Definition.' + _q.split('.')[1], None)]))
+
+
+# =============================================================================================
+# C14: derivations -- new definition, correct table, no shared mutable state
+
+def pure_pairset_comprehension(path, interp, env, node, result_name='set-comprehension'):
+    """Closed form of a PURE set comprehension whose elements are pairs of labels (A-SET: the result is a set, iteration
+    order of the generators is irrelevant):
+        R[a,b]  <->  exists values of the generator variables in their domains with  all conditions  and  elt = (a,b)
+    Generators range over label sequences (Unique / sequence objects) or over a set of pairs.  The element expression and
+    the conditions are evaluated from the real AST on fresh variables; any side effect or branching in them is rejected."""
+    import ast as _ast
+    from z3 import Exists
+    inner = dict(env)
+    bound, doms = [], []
+    n0 = len(path.pc)
+    for g in node.generators:
+        src = interp.eval(g.iter, inner)
+        if isinstance(src, PairSetObj):
+            o = Const('go!%d' % next(path.eng.counter), Name)
+            pp = Const('gp!%d' % next(path.eng.counter), Name)
+            bound += [o, pp]
+            doms.append(Select(src.P, o, pp))
+            interp.assign(g.target, TupleV([TermV(o), TermV(pp)]), inner)
+        else:
+            s = seq_of_iterable(src)
+            v = Const('gv!%d' % next(path.eng.counter), Name)
+            bound.append(v)
+            doms.append(mem(s, v))
+            interp.assign(g.target, TermV(v), inner)
+        for c in g.ifs:
+            doms.append(truthy(interp.eval(c, inner)))
+    elt = interp.eval(node.elt, inner)
+    ea, eb = pair_of(elt)
+    if len(path.pc) != n0:
+        raise Unsupported('set comprehension with branching/side effects')
+    R = Const('R!%d' % next(path.eng.counter), PSet)
+    # R[a,b] <-> exists bound. doms /\ elt = (a,b)
+    path.assume(ForAll(bound, Implies(And(*doms), Select(R, ea, eb)), patterns=[Select(R, ea, eb)] if True else None))
+    sk = [Function('sk!%d' % next(path.eng.counter), Name, Name, Name) for _ in bound]
+    from z3 import substitute
+    subs = [(v, f(a_, b_)) for v, f in zip(bound, sk)]
+    body = And(*[substitute(dd, *subs) for dd in doms] + [substitute(ea, *subs) == a_, substitute(eb, *subs) == b_])
+    path.assume(ForAll([a_, b_], Implies(Select(R, a_, b_), body), patterns=[Select(R, a_, b_)]))
+    return DefPairs(path, R, result_name)
+
+
+def triple_fromargs_contract(p, args, kw):
+    """post of Triple._fromargs (unit definitions._fromargs): a new instance holding exactly the three arguments"""
+    o, pr, pairs = args[-3:]
+    inst = ObjV('Definition', {'_objects': o, '_properties': pr, '_pairs': pairs}, name='Definition#%d' % next(p.eng.counter))
+    _alloc(p, inst)
+    inst.objs0 = (o, pr, pairs)
+    return inst
+
+
+def _with_fromargs(d):
+    f = FuncV('Definition._fromargs', triple_fromargs_contract)
+    f.is_method = True
+    d.fields['_fromargs'] = f
+    return d
+
+
+def _fromargs_unit(path):
+    from contracts.tools_unique import super_new
+    o = UniqueObj(path, fresh_seq(path, 'o'), '_objects_arg', record=False)
+    pr = UniqueObj(path, fresh_seq(path, 'p'), '_properties_arg', record=False)
+    pairs = DefPairs(path, Const('pairs_arg', PSet), '_pairs_arg', record=False)
+    cls = ObjV('class', {}, name='Definition')
+
+    def finish(path, env, outcome):
+        if outcome[0] != 'return':
+            path.oblige('post/no-exception', 'post', BoolVal(False))
+            return
+        r = outcome[1]
+        ok = isinstance(r, ObjV) and r in path.ghost.get('allocs', []) and r.cls == 'Definition' \
+            and r.fields.get('_objects') is o and r.fields.get('_properties') is pr and r.fields.get('_pairs') is pairs \
+            and set(r.fields) == {'_objects', '_properties', '_pairs'}
+        path.oblige('post/new-instance-holding-the-arguments', 'post', BoolVal(ok))
+    return ({'cls': cls, '_objects': o, '_properties': pr, '_pairs': pairs},
+            {'globals': dict(lib.builtins(), super=super_new(path))}, finish)
+
+
+def fresh_result(path, r, sources, tag='result'):
+    """freshness: result and all its containers were allocated by this call and are pairwise distinct; no container is
+    shared with a source."""
+    allocs = path.ghost.get('allocs', [])
+    ok = isinstance(r, ObjV) and r.cls == 'Definition' and r in allocs and set(r.fields) >= {'_objects', '_properties', '_pairs'}
+    path.oblige('fresh/%s' % tag, 'fresh', BoolVal(ok))
+    if not ok:
+        return False
+    cs = [r.fields['_objects'], r.fields['_properties'], r.fields['_pairs']]
+    src = [c for d in sources for c in (d.fields['_objects'], d.fields['_properties'], d.fields['_pairs'])]
+    path.oblige('fresh/%s-containers-allocated-here' % tag, 'fresh', BoolVal(all(any(c is a for a in allocs) for c in cs)))
+    path.oblige('fresh/%s-containers-not-shared' % tag, 'fresh', BoolVal(not any(c is s for c in cs for s in src)))
+    path.oblige('fresh/%s-containers-distinct' % tag, 'fresh', BoolVal(len({id(c) for c in cs}) == 3))
+    return True
+
+
+def _derive(which):
+    def body(path):
+        d = _with_fromargs(make_definition(path))
+        extra = {}
+        if which in ('inverted', 'transposed'):
+            extra['closed_form'] = {'SetComp#0': lambda interp, env, node: pure_pairset_comprehension(path, interp, env, node)}
+
+        def finish(path, env, outcome):
+            if outcome[0] != 'return':
+                path.oblige('post/no-exception', 'post', BoolVal(False))
+                return
+            r = outcome[1]
+            if not fresh_result(path, r, [d]):
+                return
+            O, P, C = view(r)
+            if which == 'copy':
+                path.oblige('post/table', 'post', And(O == d.O0, P == d.P0, C == d.C0))
+            elif which == 'inverted':
+                path.oblige('post/names', 'post', And(O == d.O0, P == d.P0))
+                # complement of cells (within the table)
+                cells_equal(path, 'post/cells-complemented', C, lambda a, b: And(mem(d.O0, a), mem(d.P0, b), Not(Select(d.C0, a, b))))
+            else:
+                path.oblige('post/axes-swapped', 'post', And(O == d.P0, P == d.O0))
+                cells_equal(path, 'post/cells-transposed', C, lambda a, b: Select(d.C0, b, a))
+            path.oblige('post/WF(result)', 'post', And(nodup(O), nodup(P), inv_pairs(O, P, C)))
+            path.oblige('post/source-unchanged', 'post', And(view(d)[0] == d.O0, view(d)[1] == d.P0, view(d)[2] == d.C0))
+        return {'self': d}, extra, finish
+    return body
+
+
+register(Unit('definitions._fromargs', D, 'Triple._fromargs', _unit(_fromargs_unit), assumptions=['object.__new__ allocates a new instance'],
+              linkage=[('concepts.Definition._fromargs', None)]))
+for _w, _q in (('copy', 'Triple.copy'), ('inverted', 'TransformableMixin.inverted'), ('transposed', 'TransformableMixin.transposed')):
+    register(Unit('definitions.' + _w, D, _q, _unit(_derive(_w)),
+                  assumptions=ASSUME + ['contract of Triple._fromargs (unit definitions._fromargs), Unique.copy (unit tools.Unique.copy)',
+                                        'A-SET: a pure set comprehension denotes the set of its element values (closed form generated from the real AST)'],
+                  linkage=[('concepts.Definition.' + _w, None)]))
+
+
+# ---- in-place and derived union / intersection
+
+def _xor(self, p, a, k):
+    other = a[1]
+    R = Const('xor!%d' % next(p.eng.counter), PSet)
+    p.assume(ForAll([a_, b_], Select(R, a_, b_) == (Select(self.P, a_, b_) != Select(other.P, a_, b_)),
+                    patterns=[Select(R, a_, b_)]))
+    return PairSetObj(p, R, 'xor')
+
+
+def _pairs_iand(self, p, a, k):
+    other = a[1]
+    R = Const('and!%d' % next(p.eng.counter), PSet)
+    p.assume(ForAll([a_, b_], Select(R, a_, b_) == And(Select(self.P, a_, b_), Select(other.P, a_, b_)),
+                    patterns=[Select(R, a_, b_), Select(self.P, a_, b_), Select(other.P, a_, b_)]))
+    self.P = R
+    return self
+
+
+def _unique_iand(self, p, a, k):
+    """ASSUMED contract of MutableSet.__iand__ + Set.__sub__ on a Unique: keeps the own elements that are also in the
+    argument, in the own order (discards the others one by one)."""
+    self.s = seqs.keep(self.s, seqs.setof(seq_of_iterable(a[1])))
+    return self
+
+
+def _unique_and(self, p, a, k):
+    """ASSUMED contract of Set.__and__ on a Unique: Unique(v for v in other if v in self) -- the order of the RIGHT operand."""
+    other = a[1]
+    return UniqueObj(p, seqs.keep(seq_of_iterable(other), seqs.setof(self.s)), '(%s & %s)' % (self.name, other.name))
+
+
+def _install_set_algebra():
+    import types
+    for cls, nm, fn in ((PairSetObj, '__xor__', _xor), (PairSetObj, '__iand__', _pairs_iand),
+                        (UniqueObj, '__iand__', _unique_iand), (UniqueObj, '__and__', _unique_and)):
+        orig = cls.__init__
+
+        def init(self, *args, _orig=orig, _nm=nm, _fn=fn, **kw):
+            _orig(self, *args, **kw)
+            _method(self, _nm, types.MethodType(_fn, self))
+        cls.__init__ = init
+
+
+_install_set_algebra()
+
+conflict = Function('conflict', Seq, Seq, PSet, Seq, Seq, PSet, seqs.B)     # a shared cell differs
+w_co = Function('w.conflict.o', Seq, Seq, PSet, Seq, Seq, PSet, Name)
+w_cp = Function('w.conflict.p', Seq, Seq, PSet, Seq, Seq, PSet, Name)
+
+
+def conflict_axioms(V1, V2):
+    """definition of `conflict` instantiated for two views (skolemised): exists shared o, p with different cells"""
+    (O1, P1, C1), (O2, P2, C2) = V1, V2
+    c = conflict(O1, P1, C1, O2, P2, C2)
+    wo, wp = w_co(O1, P1, C1, O2, P2, C2), w_cp(O1, P1, C1, O2, P2, C2)
+    shared = lambda o, p: And(mem(O1, o), mem(O2, o), mem(P1, p), mem(P2, p), Select(C1, o, p) != Select(C2, o, p))
+    return [Implies(c, shared(wo, wp)),
+            ForAll([a_, b_], Implies(shared(a_, b_), c), patterns=[Select(C1, a_, b_), Select(C2, a_, b_)])]
+
+
+def _conflicting_pairs(path):
+    left, right = make_definition(path, 'left'), make_definition(path, 'right')
+    V1, V2 = (left.O0, left.P0, left.C0), (right.O0, right.P0, right.C0)
+
+    def shared_o(e):
+        return e.val('objects').s
+
+    inner = LoopSpec(lambda e, k: [])
+    # iteration (o, p) of the nested loops yields the pair iff the two definitions differ on it
+    inner.yields = lambda e, k: (Select(left.C0, e.o, seqs.at(e.val('properties').s, k)) != Select(right.C0, e.o, seqs.at(e.val('properties').s, k)),
+                                 TupleV([TermV(e.o), TermV(seqs.at(e.val('properties').s, k))]))
+    outer = LoopSpec(lambda e, k: [])
+
+    def finish(path, env, outcome):
+        if outcome[0] != 'return':
+            path.oblige('post/no-exception', 'post', BoolVal(False))
+            return
+        path.oblige('post/only-loop-yields', 'post', BoolVal(len(path.out) == 0))
+        # the loops range over the shared objects x shared properties (in the order of the right operand)
+        path.oblige('post/ranges', 'post', And(env['objects'].s == seqs.keep(right.O0, seqs.setof(left.O0)),
+                                               env['properties'].s == seqs.keep(right.P0, seqs.setof(left.P0))))
+        for dd, tag in ((left, 'left'), (right, 'right')):
+            post_unchanged(path, dd, tag)
+    return {'left': left, 'right': right}, {0: outer, 1: inner}, finish
+
+
+def conflicting_pairs_contract(V1, V2):
+    """callee contract: an iterable that is non-empty iff a shared cell differs (from the yields clauses: the nested loops
+    are the filter of shared objects x shared properties by 'the cells differ')"""
+    def f(p, args, kw):
+        n = Int('conflicts.len!%d' % next(p.eng.counter))
+        p.assume(n >= 0)
+        p.assume(conflict_axioms(V1, V2))
+        p.assume((n > 0) == conflict(*V1, *V2))
+        return IterV(lambda t: TupleV([fresh_name(p, 'co'), fresh_name(p, 'cp')]), n, 'conflicting_pairs')
+    return FuncV('conflicting_pairs', f)
+
+
+def _ensure_compatible(path):
+    left, right = make_definition(path, 'left'), make_definition(path, 'right')
+    V1, V2 = (left.O0, left.P0, left.C0), (right.O0, right.P0, right.C0)
+    g = dict(lib.builtins(), conflicting_pairs=conflicting_pairs_contract(V1, V2))
+
+    def finish(path, env, outcome):
+        c = conflict(*V1, *V2)
+        if outcome[0] == 'raise':
+            path.oblige('post/ValueError-iff-conflict', 'post', And(BoolVal(outcome[1] == 'ValueError'), c))
+        else:
+            path.oblige('post/returns-iff-compatible', 'post', Not(c))
+        for dd, tag in ((left, 'left'), (right, 'right')):
+            post_unchanged(path, dd, tag)
+    return {'left': left, 'right': right}, {'globals': g}, finish
+
+
+def ensure_compatible_contract(V1, V2):
+    def f(p, args, kw):
+        p.assume(conflict_axioms(V1, V2))
+        if p.branch(conflict(*V1, *V2)):
+            raise PyRaise('ValueError')
+        return NONE
+    return FuncV('ensure_compatible', f)
+
+
+def model_update(kind, d, other, ignore):
+    """the model of in-place union / intersection on the views (before-state)"""
+    O1, P1, C1 = d.O0, d.P0, d.C0
+    O2, P2, C2 = other.O0, other.P0, other.C0
+    if kind == 'union':
+        return (fold_add(O1, O2, seqs.slen(O2)), fold_add(P1, P2, seqs.slen(P2)), lambda a, b: Or(Select(C1, a, b), Select(C2, a, b)))
+    return (seqs.keep(O1, seqs.setof(O2)), seqs.keep(P1, seqs.setof(P2)), lambda a, b: And(Select(C1, a, b), Select(C2, a, b)))
+
+
+def _update(kind, via_operator=False):
+    def body(path):
+        d, other = make_definition(path, 'self'), make_definition(path, 'other')
+        V1, V2 = (d.O0, d.P0, d.C0), (other.O0, other.P0, other.C0)
+        ignore = path.fresh_bool('ignore_conflicts')
+        g = dict(lib.builtins(), ensure_compatible=ensure_compatible_contract(V1, V2))
+        env = {'self': d, 'other': other}
+        if via_operator:
+            ignore = BoolVal(False)
+            m = FuncV('%s_update' % kind, lambda p, a, k: update_contract(kind, d, other, a, k)(p))
+            m.is_method = True
+            d.fields['%s_update' % kind] = m
+        else:
+            env['ignore_conflicts'] = BoolV(ignore)
+
+        def finish(path, env_, outcome):
+            path.assume(conflict_axioms(V1, V2))
+            c = conflict(*V1, *V2)
+            if outcome[0] == 'raise':
+                path.oblige('post/ValueError-iff-conflict-not-ignored', 'post', And(BoolVal(outcome[1] == 'ValueError'), c, Not(ignore)))
+                post_unchanged(path, d)
+                post_unchanged(path, other, 'other')
+                return
+            path.oblige('post/accepted', 'post', Or(ignore, Not(c)))
+            if via_operator:
+                path.oblige('post/returns-self', 'post', BoolVal(outcome[1] is d))
+            elif not _ret_none(path, outcome):
+                return
+            O, P, C = view(d)
+            mO, mP, mC = model_update(kind, d, other, ignore)
+            path.assume([seqs.st_fold_facts(d.O0, other.O0, seqs.slen(other.O0)), seqs.st_fold_facts(d.P0, other.P0, seqs.slen(other.P0)),
+                         seqs.st_mem_infirst(other.O0), seqs.st_mem_infirst(other.P0)])
+            path.oblige('post/names', 'post', And(O == mO, P == mP))
+            cells_equal(path, 'post/cells', C, mC)
+            d_fields = {k: v for k, v in d.fields.items() if k in ('_objects', '_properties', '_pairs')}
+            path.oblige('post/WF', 'post', And(nodup(O), nodup(P), inv_pairs(O, P, C)))
+            path.oblige('frame/containers-kept', 'frame', BoolVal((d_fields['_objects'], d_fields['_properties'], d_fields['_pairs']) == d.objs0))
+            post_unchanged(path, other, 'other')
+        return env, {'globals': g}, finish
+    return body
+
+
+def update_contract(kind, d, other, args, kw):
+    """callee contract of union_update / intersection_update (units definitions.union_update / intersection_update) on object d"""
+    def run(p):
+        ig = kw.get('ignore_conflicts', args[2] if len(args) > 2 else BoolV(False))
+        tgt = args[0]
+        oth = args[1]
+        V1, V2 = view(tgt), view(oth)
+        p.assume(conflict_axioms(V1, V2))
+        if not p.branch(Or(truthy(ig), Not(conflict(*V1, *V2)))):
+            raise PyRaise('ValueError')
+        O1, P1, C1 = V1
+        O2, P2, C2 = V2
+        n = next(p.eng.counter)
+        R = Const('upd!%d' % n, PSet)
+        if kind == 'union':
+            tgt.fields['_objects'].s = fold_add(O1, O2, seqs.slen(O2))
+            tgt.fields['_properties'].s = fold_add(P1, P2, seqs.slen(P2))
+            p.assume(ForAll([a_, b_], Select(R, a_, b_) == Or(Select(C1, a_, b_), Select(C2, a_, b_)), patterns=[Select(R, a_, b_)]))
+            p.assume([seqs.st_fold_facts(O1, O2, seqs.slen(O2)), seqs.st_fold_facts(P1, P2, seqs.slen(P2)),
+                      seqs.st_mem_infirst(O2), seqs.st_mem_infirst(P2)])
+        else:
+            tgt.fields['_objects'].s = seqs.keep(O1, seqs.setof(O2))
+            tgt.fields['_properties'].s = seqs.keep(P1, seqs.setof(P2))
+            p.assume(ForAll([a_, b_], Select(R, a_, b_) == And(Select(C1, a_, b_), Select(C2, a_, b_)), patterns=[Select(R, a_, b_)]))
+        tgt.fields['_pairs'].P = R
+        return NONE
+    return run
+
+
+def _derived(kind):
+    def body(path):
+        d, other = make_definition(path, 'self'), make_definition(path, 'other')
+        ignore = path.fresh_bool('ignore_conflicts')
+
+        def copy_contract(p, args, kw):
+            # contract of Triple.copy (unit definitions.copy): a new definition with new containers and the same view
+            src = args[0]
+            O, P, C = view(src)
+            r = ObjV('Definition', {}, name='copy-of-self')
+            _alloc(p, r)
+            r.fields['_objects'] = UniqueObj(p, O, 'copy._objects')
+            r.fields['_properties'] = UniqueObj(p, P, 'copy._properties')
+            r.fields['_pairs'] = DefPairs(p, C, 'copy._pairs')
+            r.objs0 = (r.fields['_objects'], r.fields['_properties'], r.fields['_pairs'])
+            m = FuncV('%s_update' % kind, lambda p2, a2, k2, _r=r: update_contract(kind, _r, other, a2, k2)(p2))
+            m.is_method = True
+            r.fields['%s_update' % kind] = m
+            return r
+        f = FuncV('Definition.copy', copy_contract)
+        f.is_method = True
+        d.fields['copy'] = f
+
+        def finish(path, env, outcome):
+            V1, V2 = (d.O0, d.P0, d.C0), (other.O0, other.P0, other.C0)
+            path.assume(conflict_axioms(V1, V2))
+            c = conflict(*V1, *V2)
+            for dd, tag in ((d, 'self'), (other, 'other')):
+                O, P, C = view(dd)
+                path.oblige('post/%s-unchanged' % tag, 'post', And(O == dd.O0, P == dd.P0, C == dd.C0))
+            if outcome[0] == 'raise':
+                path.oblige('post/ValueError-iff-conflict-not-ignored', 'post', And(BoolVal(outcome[1] == 'ValueError'), c, Not(ignore)))
+                return
+            path.oblige('post/accepted', 'post', Or(ignore, Not(c)))
+            r = outcome[1]
+            if not fresh_result(path, r, [d, other]):
+                return
+            O, P, C = view(r)
+            mO, mP, mC = model_update(kind, d, other, ignore)
+            path.oblige('post/names', 'post', And(O == mO, P == mP))
+            cells_equal(path, 'post/cells', C, mC)
+        return {'self': d, 'other': other, 'ignore_conflicts': BoolV(ignore)}, None, finish
+    return body
+
+
+register(Unit('definitions.conflicting_pairs', D, 'conflicting_pairs', _unit(_conflicting_pairs),
+              assumptions=ASSUME + ['ASSUMED: Set.__and__ on Unique = the shared names in the order of the right operand (stdlib mixin + Unique.__init__)',
+                                    'builtin set ^ : symmetric difference'],
+              linkage=[('concepts.definitions.conflicting_pairs', None)]))
+register(Unit('definitions.ensure_compatible', D, 'ensure_compatible', _unit(_ensure_compatible),
+              assumptions=['contract of conflicting_pairs (unit definitions.conflicting_pairs): non-empty iff a shared cell differs'],
+              linkage=[('concepts.definitions.ensure_compatible', None)]))
+for _k in ('union', 'intersection'):
+    register(Unit('definitions.%s_update' % _k, D, 'MutableMixin.%s_update' % _k, _unit(_update(_k)),
+                  assumptions=ASSUME + ['requires other is not self (the aliased call is covered on the bounded side only)',
+                                        'contract of ensure_compatible (unit definitions.ensure_compatible)',
+                                        'ASSUMED: MutableSet.__iand__ on Unique keeps the shared names in the own order'],
+                  linkage=[('concepts.Definition.%s_update' % _k, None)]))
+    register(Unit('definitions.%s' % _k, D, 'MutableMixin.%s' % _k, _unit(_derived(_k)),
+                  assumptions=['contracts of Triple.copy and %s_update (units definitions.copy / definitions.%s_update)' % (_k, _k)],
+                  linkage=[('concepts.Definition.%s' % _k, None), ('concepts.Definition.__%s__' % ('or' if _k == 'union' else 'and'), None)]))
+register(Unit('definitions.__ior__', D, 'MutableMixin.__ior__', _unit(_update('union', True)),
+              assumptions=['contract of union_update'], linkage=[('concepts.Definition.__ior__', None)]))
+register(Unit('definitions.__iand__', D, 'MutableMixin.__iand__', _unit(_update('intersection', True)),
+              assumptions=['contract of intersection_update'], linkage=[('concepts.Definition.__iand__', None)]))
